@@ -92,6 +92,17 @@ def handle (op : String) (args : List String) (impl : Option (List String)) : St
         | some i => some ((parseRangeOut i).map (C10.c10_ok hdr chunks limit) |>.getD false)
       (showRangeOut m, pv)
     | _, _, _ => ("BADOP", none)
+  | "HASH", [t, segs] | "HASHO", [t, segs] =>
+    match t.toNat?, (segs.splitOn "|").mapM parseHex with
+    | some t, some segs =>
+      let m := if op == "HASH" then Sha.bundledHash t segs else Sha.zckHash t segs.flatten
+      let out := match m with | some d => "OK " ++ toHex d | none => "ERR"
+      let pv := impl.map fun i => match i with
+        | ["OK", d] => (parseHex d).map (C18.c18_ok t segs) |>.getD false
+        | ["ERR"] => (Sha.zckHash t []).isNone
+        | _ => false
+      (out, pv)
+    | _, _ => ("BADOP", none)
   | _, _ => ("BADOP", none)
 
 partial def loop (hin : IO.FS.Stream) (hout : IO.FS.Stream) : IO Unit := do
